@@ -2,7 +2,7 @@
    Only theorem statements; proofs in Proofs/CommandsProofs.v, Proofs/ClassifyProofs.v. *)
 From RcProxy Require Import Base.Bytes Base.Dec Gen.Generated Spec.RespGrammar Spec.CommandSpec
   Model.RespBuf Model.Commands Model.Crc16 Model.ClientCodec
-  Proofs.ClientCodecProofs Proofs.CommandsProofs Proofs.ClassifyProofs.
+  Model.ServerCodec Proofs.ClientCodecProofs Proofs.CommandsProofs Proofs.ClassifyProofs Proofs.MergeProofs.
 Open Scope N_scope.
 
 (* DATA (re-proved against the tables translated from commands.go and docs/command.md on every
@@ -46,6 +46,28 @@ Proof.
   rewrite decode_complete in H1, H2 by exact Hwf. split; congruence.
 Qed.
 Print Assumptions C17_independent_of_pipeline.
+
+(* REPLY side: a backend reply larger than the limit is replaced by the size error (single-key),
+   and so is an assembled MGET reply larger than the limit *)
+Theorem C17_reply_too_large : forall sigma limit m s rty rsp f,
+  sm_type m <> ReqMget -> sm_type m <> ReqDel -> sm_type m <> ReqMset ->
+  get_frag (sm_frags m) s = Some f -> sf_done f = false -> (limit < Z.of_nat (length rsp))%Z ->
+  exists m', merge_step sigma limit m s rty rsp = Fine (Some m') /\ sm_done m' = true /\ sm_rsp m' = ErrMsgRspTooLarge.
+Proof.
+  intros sigma limit m s rty rsp f H1 H2 H3 Hg Hd Hl.
+  destruct (default_reply sigma limit m s rty rsp f H1 H2 H3 Hg Hd) as (m' & E & D & R).
+  exists m'. split; [exact E|]. split; [exact D|]. rewrite R.
+  destruct (Z.ltb_spec limit (Z.of_nat (length rsp))); [reflexivity | lia].
+Qed.
+Print Assumptions C17_reply_too_large.
+
+Theorem C17_mget_reply_too_large : forall sigma limit ks rho P,
+  (limit < Z.of_nat (length (final_mget ks rho)))%Z ->
+  sm_rsp (mget_fin sigma limit ks rho P) = ErrMsgRspTooLarge.
+Proof.
+  intros. unfold mget_fin. destruct (Z.ltb_spec limit (Z.of_nat (length (final_mget ks rho)))); [reflexivity | lia].
+Qed.
+Print Assumptions C17_mget_reply_too_large.
 
 (* non-vacuity, and the witness that refuted the pre-fix code: with limit 100, a 21-byte GET
    followed by five more is served (the old size test looked at all 126 buffered bytes) *)
